@@ -34,6 +34,7 @@ class Gen:
         self.has_attention_in_branch = False
         self.helpers_used: Set[str] = set()
         self.lin_params: List[Any] = []
+        self.lin_mods: List[Any] = []
         self.extra_outputs: List[str] = []
 
     # ---------------- helpers
@@ -66,7 +67,13 @@ class Gen:
         if st in ("bias_kw", "weight_kw"):
             self.mark("linear_kw")
         if st == "nn":
-            m = b.mod("Linear", din, dout, bias=r.random() < 0.7)
+            mods = [c for c in self.lin_mods if c[1] == din and c[2] == dout]
+            if mods and r.random() < 0.3:
+                m = r.choice(mods)[0]  # the same layer object called a second time
+                self.mark("layer_reused")
+            else:
+                m = b.mod("Linear", din, dout, bias=r.random() < 0.7)
+                self.lin_mods.append((m, din, dout))
             out = b.op("nn_linear", [cur], oshape, mod=m)
         elif st == "uu":
             m = b.mod("uu.Linear", din, dout, bias=r.random() < 0.5,
@@ -97,6 +104,8 @@ class Gen:
         r, b = self.r, self.b
         kinds = ["gelu", "gelu_tanh", "silu", "tanh", "relu", "softmax", "dropout0", "dropout_eval",
                  "mul_scalar", "add_scalar", "nn_gelu"]
+        if self.vocab != "quant":
+            kinds += ["self_add", "self_mul"]
         if self.ok("nn_silu"):
             kinds.append("nn_silu")
         if self.ok("nn_softmax"):
@@ -122,6 +131,12 @@ class Gen:
             return b.op("dropout", [cur], p=0.3, training=False)
         if k == "mul_scalar":
             return b.op("mul_scalar", [cur], c=r.choice([0.5, 2.0, -1.5]))
+        if k == "self_add":
+            out = b.op("add", [cur, cur])  # the same tensor as both operands
+            self.fresh.add(out)
+            return out
+        if k == "self_mul":
+            return b.op("mul", [cur, cur])
         if k == "add_scalar":
             return b.op("add_scalar", [cur], c=r.choice([1.5, -0.25, 2]))
         if k == "nn_gelu":
